@@ -1120,7 +1120,13 @@ def replay_known(ctx, binpath):
     for f in ctx.known_findings():
         w = f["witness"]
         case = norm_case({"ops": w["ops"], "threads_all": True})
+        hashed = is_big(case)
         drv = {"kind": "db", "ops": [op_json(op) for op in case["ops"]]}
+        mo = ctx.run_model(SUB, REQ, ["%s [%s]" % ("run_h" if hashed else "run", ";".join(cop(op) for op in case["ops"]))], preamble=PRE)[0]
+        if isinstance(mo, tuple) and mo and mo[0] == "ERROR":
+            ctx.broken("correspondence", "known-finding witness", "model evaluation failed: %s" % (mo[1][-400:],), {"finding": f["id"]})
+            continue
+        spec = set(mo[-1][1][1]) if hashed else spec_quads(mo[-1][1][1])      # the Spec quads of the last load
         still = False
         for th in THREADS:
             im = ctx.run_impl(binpath, [drv], env={"RAYON_NUM_THREADS": th})[0]
@@ -1128,16 +1134,9 @@ def replay_known(ctx, binpath):
             if "dens" not in im:
                 still = True
                 continue
-            dens = [impl_den(x) for x in im["dens"]]
-            exp = set(tuple(q) for q in w["expected_after"]) if "expected_after" in w else None
-            if exp is None:
-                # expected = Spec: before U triples_of(doc) for the last (observed) load
-                mo = ctx.run_model(SUB, REQ, ["run [%s]" % ";".join(cop(op) for op in case["ops"])], preamble=PRE)[0]
-                before = dens[-2] if len(dens) >= 2 else set()
-                exp = before | spec_quads(mo[-1][1][1])
-                w = dict(w)
-                w["expected_after"] = [list(q) for q in sorted(exp)]
-            if dens[-1] != exp:
+            dens = [set(qhash(q) for q in impl_den(x)) if hashed else impl_den(x) for x in im["dens"]]
+            before = dens[-2] if len(dens) >= 2 else set()
+            if dens[-1] != before | spec:
                 still = True
         if still:
             ctx.known(f["id"], f["what"])
@@ -1281,7 +1280,7 @@ def finish(ctx):
 
 
 def replay(ctx):
-    binpath = ctx.harness("c13")
+    binpath = os.environ.get("C13_BIN") or ctx.harness("c13")
     c = ctx.replay["case"]
     if "ops" in c:
         eval_db(ctx, binpath, [c], "replay", threads_all=True)
